@@ -53,11 +53,12 @@ ASSUMPTIONS = [
     "the EdgeLock container-version-2 credential is an AHAB certificate: only its fixed part, its single SRK record/data pair and the "
     "signature container are decoded (PQC second key pair is not exercised: no PQC backend in this environment)",
 ]
-FLOORS = {"kind:rsa": 0.08, "kind:ecc": 0.15, "kind:ele": 0.08, "multi_rot": 0.3, "beacon_nonzero": 0.2, "uuid_nonzero": 0.2,
-          "dar_checked": 0.5, "leading_zero": 0.03}
+FLOORS = {"kind:rsa": 0.08, "kind:ecc": 0.15, "kind:ele": 0.08, "kind:elev2": 0.05, "multi_rot": 0.25, "beacon_nonzero": 0.2,
+          "uuid_nonzero": 0.2, "dar_checked": 0.4, "leading_zero": 0.03, "kt:secp521r1": 0.04, "kt:rsa4096": 0.005, "rot_id:3": 0.02}
 
 KEY_TYPES = ["secp256r1", "secp384r1", "secp521r1", "rsa2048", "rsa4096"]
 _KT_WEIGHTED = ["secp256r1"] * 6 + ["secp384r1"] * 5 + ["secp521r1"] * 3 + ["rsa2048"] * 5 + ["rsa4096"] * 1
+_FLIP_FIELDS = ["version", "socc", "uuid", "cc_socu", "cc_vu", "cc_beacon", "rot_meta", "rot_meta", "rotk", "dck", "dck"]
 _STATE: dict = {}
 
 
@@ -213,8 +214,9 @@ def _dc_strategy(tier: str):
             "ab": draw(_BEACON), "chal": draw(st.binary(min_size=32, max_size=32)), "chal2": draw(st.binary(min_size=32, max_size=32)),
             "dev_uuid": draw(st.binary(min_size=16, max_size=16)), "uuid2": draw(st.binary(min_size=16, max_size=16)),
             "ab2": draw(st.integers(0, 0xFFFFFFFF)), "revocation": draw(_U32), "pinned": draw(_U32), "default": draw(_U32),
-            "dac_vu": draw(_U32), "flip": draw(st.integers(0, 1 << 20)), "dar_path": draw(st.sampled_from(["create", "config"])),
-            "dar_family_given": draw(st.booleans()), "neg": draw(st.sampled_from(["uuid", "beacon", "dc", "chal"])),
+            "dac_vu": draw(_U32), "flip": draw(st.integers(0, 1 << 20)), "flip_field": draw(st.sampled_from(_FLIP_FIELDS)),
+            "dar_path": draw(st.sampled_from(["create", "config"])),
+            "dar_family_given": draw(st.booleans()), "dar_signer": draw(st.sampled_from(["key", "key", "sp"])), "neg": draw(st.sampled_from(["uuid", "beacon", "dc", "chal"])),
         }
 
     return build()
@@ -284,6 +286,8 @@ def run_dc(case, o: Oracle) -> None:
         o.label("beacon_gt16bit")
     if by_socc:
         o.label("by_socc")
+    if kind == "ele" and kt.startswith("rsa") and case["signer"] == "sp":
+        o.label("dc_pss_via_sign_provider")
     if case["explicit_version"]:
         o.label("explicit_version")
     if flag_ca:
@@ -373,7 +377,8 @@ def run_dc(case, o: Oracle) -> None:
             else:
                 o.eq("layout", "rot_meta", m["rot_meta_raw"][4:], L.srk_table(pubs, srk_flags))
         o.check("signature", L.dc_signature_ok(m), "dc_verifies", "signature does not verify under the named RoT key over the %d preceding bytes" % len(m["signed"]))
-        pos = int(case["flip"]) % (8 * len(m["signed"]))
+        fa, fb = m["offsets"].get(case["flip_field"], m["offsets"]["rot_meta"])  # EdgeLock: the RoT key lives inside the RoT meta
+        pos = 8 * fa + int(case["flip"]) % (8 * (fb - fa))
         bad = bytearray(m["signed"])
         bad[pos // 8] ^= 1 << (pos % 8)
         o.check("signature", not L.dc_signature_ok(m, bytes(bad)), "dc_flip_undetected", "flip in field %s" % L.field_at(m["offsets"], pos // 8))
@@ -424,13 +429,22 @@ def run_dc(case, o: Oracle) -> None:
     if info["cnt"] != latest["cnt"]:
         path = "config"  # create() has no revision parameter; the revision decides the response class
     dar_bytes = None
+    dar_signer = case["dar_signer"]
+    o.label("dar_signer:" + dar_signer)
+    if dck_pub[0] == "rsa" and info["pss"] and dar_signer == "sp":
+        o.label("dar_pss_via_sign_provider")
     with o.spsdk("dar", "build:" + path):
         if path == "create":
+            # create() takes a key file or, for anything that is not an existing file, a signature provider configuration
             dar = DebugAuthenticateResponse.create(family=fam if case["dar_family_given"] else None, version=None, dc=dc, auth_beacon=ab,
-                                                   dac=dac, dck=dck_priv)
+                                                   dac=dac, dck=dck_priv if dar_signer == "key" else "type=file;file_path=%s" % dck_priv)
         else:
             cert_file = _write(os.path.join(wd, "dc_%s.bin" % hashlib.sha256(data).hexdigest()[:24]), data)
-            dcfg = {"family": fam, "certificate": os.path.basename(cert_file), "beacon": ab, "dck_private_key": os.path.basename(dck_priv)}
+            dcfg = {"family": fam, "certificate": os.path.basename(cert_file), "beacon": ab}
+            if dar_signer == "key":
+                dcfg["dck_private_key"] = os.path.basename(dck_priv)
+            else:
+                dcfg["sign_provider"] = "type=file;file_path=%s" % dck_priv
             if rev != "latest":
                 dcfg["revision"] = rev
             check_config(dcfg, DebugAuthenticateResponse.get_validation_schemas(fam, rev), search_paths=[wd])
@@ -469,6 +483,150 @@ def run_dc(case, o: Oracle) -> None:
         other_dc[8 + int(case["flip"]) % 16] ^= 0x01  # the same credential issued for another uuid
         o.check("binding", not L.verify(dck_pub, r["signature"], L.dar_signed_data(bytes(other_dc), ab, u, chal), pss=pss), "other_credential_verifies")
     o.label("neg:" + neg)
+
+
+# ------------------------------------------------------------------ EdgeLock enclave, container version 2 (AHAB certificate)
+def _elev2_strategy(tier: str):
+    choices = _family_choices("thorough", want_cnt=2)
+    choices = [c for c in choices if _info(*c)["ele"] and _info(*c)["cnt"] == 2]
+    uuid = st.one_of(st.none(), st.binary(min_size=16, max_size=16), st.binary(min_size=16, max_size=16),
+                     st.integers(1, 12).flatmap(lambda z: st.binary(min_size=16 - z, max_size=16 - z).map(lambda b: bytes(z) + b)))
+
+    @st.composite
+    def build(draw):
+        fam, rev = draw(st.sampled_from(choices))
+        dck_kt = draw(st.sampled_from(_KT_WEIGHTED))
+        srk_kt = draw(st.sampled_from([dck_kt, dck_kt] + _KT_WEIGHTED))
+        return {
+            "fam": fam, "rev": rev, "dck": draw(_key_desc(dck_kt)), "srk": draw(_key_desc(srk_kt)), "socu": draw(_U32), "uuid": draw(uuid),
+            "fuse_version": draw(st.one_of(st.none(), st.integers(0, 255))), "signer": draw(st.sampled_from(["key", "key", "sp"])),
+            "dck_form": draw(st.sampled_from(["pub.pem", "pub.der", "priv.pem"])), "values_as_text": draw(st.booleans()),
+            "flip": draw(st.integers(0, 1 << 20)), "flip_field": draw(st.sampled_from(["head", "perm_data", "uuid", "record", "key"])),
+            "chal": draw(st.binary(min_size=32, max_size=32)), "dev_uuid": draw(st.binary(min_size=16, max_size=16)),
+            "dac_minor": draw(st.integers(0, 2)), "dac_hash": draw(st.binary(min_size=32, max_size=32)), "revocation": draw(_U32),
+            "pinned": draw(_U32), "default": draw(_U32), "dac_vu": draw(_U32),
+        }
+
+    return build()
+
+
+def run_elev2(case, o: Oracle) -> None:
+    from spsdk.dat.dac_packet import DebugAuthenticationChallenge  # noqa: PLC0415
+    from spsdk.dat.debug_credential import DebugCredentialCertificate, DebugCredentialEdgeLockEnclaveV2  # noqa: PLC0415
+    from spsdk.utils.schema_validator import check_config  # noqa: PLC0415
+
+    wd = _STATE["work"]
+    fam, rev = case["fam"], case["rev"]
+    info = _info(fam, rev)
+    dck_desc, srk_desc = case["dck"], case["srk"]
+    dck_pub, srk_pub = _pub(dck_desc), _pub(srk_desc)
+    socu = int(case["socu"])
+    uuid = bytes(case["uuid"]) if case["uuid"] is not None else None
+    fuse_version = case["fuse_version"]
+    txt = bool(case["values_as_text"])
+    o.label("kind:elev2", "v2_dck:" + L.key_type(dck_pub), "v2_srk:" + L.key_type(srk_pub), "v2_signer:" + case["signer"])
+    if uuid is None:
+        o.label("v2_uuid_absent")
+    elif uuid[0] == 0:
+        o.label("v2_uuid_leading_zero_byte")
+        if uuid[:4] == bytes(4):
+            o.label("v2_uuid_4_leading_zero_bytes")
+    if uuid is not None and any(uuid):
+        o.label("uuid_nonzero")
+    if srk_pub[0] == "rsa" and case["signer"] == "sp":
+        o.label("dc_pss_via_sign_provider")
+    if K.has_leading_zero(dck_desc) or K.has_leading_zero(srk_desc):
+        o.label("leading_zero")
+    o.nontrivial(socu != 0 or (uuid is not None and any(uuid)))
+    o.sample({"family": fam, "revision": rev, "dck": L.key_type(dck_pub), "signing_key": L.key_type(srk_pub), "cc_socu": socu,
+              "uuid": uuid.hex() if uuid is not None else None, "fuse_version": fuse_version})
+
+    srk_priv = _key_file(srk_desc, "priv.pem")
+    cfg = {"family": fam, "cc_socu": hex(socu) if txt else socu, "public_key_0": os.path.basename(_key_file(dck_desc, case["dck_form"]))}
+    if rev != "latest":
+        cfg["revision"] = rev
+    if uuid is not None:
+        cfg["uuid"] = "0x" + uuid.hex()
+    if fuse_version is not None:
+        cfg["fuse_version"] = str(fuse_version) if txt else fuse_version
+    if case["signer"] == "sp":
+        cfg["signature_provider_0"] = "type=file;file_path=%s" % srk_priv
+    else:
+        cfg["signing_key_0"] = os.path.basename(srk_priv)
+
+    dc = data = None
+    with o.spsdk("create", "dc_v2"):
+        klass = DebugCredentialCertificate._get_class_from_cfg(config=cfg, family=fam, search_paths=[wd], revision=rev)
+        if klass is not DebugCredentialEdgeLockEnclaveV2:
+            # a P-256 key in public_key_0 makes the application pick the classic class (noted in the report, not judged here);
+            # the container-version-2 class is used directly as tests/dat/test_debug_cred.py does
+            o.label("v2_class_from_cfg_is_classic")
+            klass = DebugCredentialEdgeLockEnclaveV2
+        check_config(cfg, klass.get_validation_schemas(fam, rev), search_paths=[wd])
+        dc = klass.create_from_yaml_config(config=dict(cfg), search_paths=[wd])
+        dc.sign()
+        data = dc.export()
+    if data is None:
+        return
+    o.artifact("dc", data)
+
+    with o.spsdk("roundtrip", "parse_v2"):
+        p = DebugCredentialEdgeLockEnclaveV2.parse(data)
+        # an omitted (optional) uuid is the all-zero uuid on the wire: the objects then differ only in None vs zeros,
+        # which is a representation, not a field value; object equality is demanded against a second parse instead
+        o.check("roundtrip", p == (dc if uuid is not None else DebugCredentialEdgeLockEnclaveV2.parse(p.export())), "object_eq")
+        o.eq("roundtrip", "field:socc", p.socc, dc.socc)
+        o.eq("roundtrip", "field:socu", p.socu, dc.socu)
+        o.eq("roundtrip", "field:uuid", p.uuid or bytes(16), dc.uuid or bytes(16))
+        o.check("roundtrip", p.dck_pub == dc.dck_pub, "field:dck_pub")
+        o.eq("roundtrip", "reexport", p.export(), data)
+    with o.spsdk("roundtrip", "dispatch_v2"):
+        p2 = DebugCredentialCertificate.parse(data)
+        o.eq("roundtrip", "dispatch_class", type(p2).__name__, "DebugCredentialEdgeLockEnclaveV2")
+        o.check("roundtrip", p2 == (dc if uuid is not None else p), "dispatch_object_eq")
+
+    m = None
+    try:
+        m = L.parse_cert_v2(data)
+    except (L.LayoutError, struct.error) as exc:
+        o.fail("layout", "dc_v2_layout", "%s: %s" % (type(exc).__name__, exc))
+    if m is not None:
+        o.eq("layout", "v2_permission", m["perm"], L.PERM_DEBUG)
+        o.eq("layout", "v2_socc", struct.unpack("<L", m["perm_data"][:4])[0], info["socc"])
+        o.eq("layout", "v2_cc_socu", struct.unpack("<L", m["perm_data"][4:8])[0], socu)
+        o.eq("layout", "v2_beacon", struct.unpack("<L", m["perm_data"][8:12])[0], 0)
+        o.eq("layout", "v2_uuid", m["uuid"], uuid if uuid is not None else bytes(16))
+        o.eq("layout", "v2_fuse_version", m["fuse_version"], fuse_version or 0)
+        o.eq("layout", "v2_dck", m["pub"], dck_pub)
+        if m["hash_alg"] is None:
+            o.fail("layout", "v2_hash_alg", "unknown hash code")
+        else:
+            o.eq("layout", "v2_key_data_hash", m["data_hash"], hashlib.new(m["hash_alg"], m["srk_data"]).digest().ljust(64, b"\0"))
+        pss = srk_pub[0] == "rsa"  # the AHAB RSA records declare RSA-PSS
+        o.check("signature", L.verify(srk_pub, m["signature"], m["signed"], pss=pss), "dc_v2_verifies",
+                "signature does not verify under the signing key over the %d preceding bytes" % len(m["signed"]))
+        spans = {"head": (0, 8), "perm_data": (8, 20), "uuid": (24, 40), "record": (40, 116), "key": (116, m["sig_off"])}
+        fa, fb = spans[case["flip_field"]]
+        pos = 8 * fa + int(case["flip"]) % (8 * (fb - fa))
+        bad = bytearray(m["signed"])
+        bad[pos // 8] ^= 1 << (pos % 8)
+        o.check("signature", not L.verify(srk_pub, m["signature"], bytes(bad), pss=pss), "dc_v2_flip_undetected", "flip in %s" % case["flip_field"])
+        o.label("v2_flip:" + case["flip_field"])
+    with o.spsdk("layout", "v2_object"):
+        o.eq("layout", "v2_object_socc", dc.socc, info["socc"])
+        o.eq("layout", "v2_object_socu", dc.socu, socu)
+
+    # challenge of these parts: 32-byte RoT hash whatever the version says, version halves swapped when the database says so
+    dev_uuid, chal, minor = bytes(case["dev_uuid"]), bytes(case["chal"]), int(case["dac_minor"])
+    v = (minor, 2) if info["swapped"] else (2, minor)
+    dac_bytes = L.build_dac(v[0], v[1], info["socc"], dev_uuid, int(case["revocation"]), bytes(case["dac_hash"]), int(case["pinned"]),
+                            int(case["default"]), int(case["dac_vu"]), chal)
+    with o.spsdk("dac", "parse"):
+        dac = DebugAuthenticationChallenge.parse(dac_bytes)
+        got = (dac.version.major, dac.version.minor, dac.socc, dac.uuid, dac.rotid_rkh_revocation, dac.rotid_rkth_hash, dac.cc_soc_pinned,
+               dac.cc_soc_default, dac.cc_vu, dac.challenge)
+        o.eq("dac", "fields", got, (2, minor, info["socc"], dev_uuid, int(case["revocation"]), bytes(case["dac_hash"]), int(case["pinned"]),
+                                    int(case["default"]), int(case["dac_vu"]), chal))
 
 
 # ------------------------------------------------------------------ calibration
@@ -516,4 +674,5 @@ def parts(ctx):
     _STATE["work"] = ctx.work
     return [
         HypPart("dc", lambda: _dc_strategy(ctx.tier), run_dc, {"quick": 1600, "thorough": 48000}),
+        HypPart("elev2", lambda: _elev2_strategy(ctx.tier), run_elev2, {"quick": 320, "thorough": 9600}),
     ]
